@@ -17,6 +17,27 @@ CHECKS = {
         'random and named programs x limits; every implementation answer within budget is re-decided by the extracted spec ref_run.',
    note=COMMON_NOTE + 'Theorems closed under the global context. u64 overflow of steps/counts not modelled (unreachable within explored limits).',
    tech='Rocq/Coq proof (simulation invariant, induction over cycles) + model/implementation correspondence + extracted-spec oracle'),
+ 'C02': dict(cat='other', sec='DESIGN.md §6 C02, §12',
+   text='Partial by necessity: the rule INFERENCE of prover.rs (four observations => rule) is a generalisation, not a theorem, and the InfiniteRule / MultRule / ConfigLimit verdicts of try_rule '
+        'carry no theorem. Everything downstream is proved over the Gallina model of run_prover + prover.rs (tied to the code on every run incl. the full trace of rule applications): '
+        'C02_reach_invariant / C02_outcome_sound_given_rules (if every applied rule is valid - RuleValid - or, weaker and checkable, every recorded application is confirmed by the verified replay '
+        'checker: C02_apps_replayed_real - then undfnd / spnout verdicts are true: the real machine halts at that slot / spins out, with exactly the reported marks), C02_blank_infrul_sound (the '
+        'repeated-blank-tape infrul, recognisable by cycles = 0, implies the machine never halts), C02_norule_exact / C02_norule_eq_ref (no rule applied => the whole result record equals the rule-free '
+        'simulator and hence the cell-by-cell reference, via C01), C02_prover_mono; machine-checked instance: the repo test machine halts at B3 with 2050 marks (C02_test_machine_halts, no hypothesis left). '
+        'The property is decided on the explored programs: every undfnd/spnout verdict of the implementation is compared with a real run (slot, marks; steps when no rule was applied), every infrul with any '
+        'termination within the budget.',
+   note=COMMON_NOTE + 'Theorems closed under the global context. u64 overflow panics of steps/rulapp (46+3 named machines at 10^4 cycles) are modelled and agree.',
+   tech='Rocq/Coq conditional soundness theorems + verified replay checker + model/implementation correspondence (with application traces) + real-run oracle'),
+ 'C03': dict(cat='other', sec='DESIGN.md §6 C03, §12',
+   text='Coq theorems: C03_trace_apps_are_applications (every application recorded in a run of the model is an apply_rule on a canonical tape with distinct rule keys: unconditional), '
+        'C03_apply_sound / C03_apply_no_zero_block / C03_apply_no_spinout (IF a rule is valid for one application on every tape of its family - RuleValid - THEN the bulk application apply_rule is a run of '
+        '>= times real machine steps, no intermediate block count below 1, no halt and no spin-out on the way; non-vacuous: a 3-state transfer machine with RuleValid proved by hand, 2^62-1 applications at once), '
+        'C03_replay_sound / C03_replay3_reached (the replay checker - the C01-verified compressed simulator run from the configuration before until it meets the configuration after - is sound), '
+        'C03_trace_replayed_apps_real. Rule validity itself is not a theorem (the inference is a generalisation from four observations): each DISTINCT application reported by the bb_verif hook of the real '
+        'run_prover whose estimated cost fits the budget is re-validated by the verified replay checker (others are counted as unreplayed, as the property quantifier allows); a replay that halts or spins out '
+        'before reaching the claimed configuration, a block count < 1 or a changed colour is a VIOLATION with the application as replay. The application trace itself is part of the model correspondence.',
+   note=COMMON_NOTE + 'Theorems closed under the global context. Hook: machine::verif::take_apps (cfg bb_verif).',
+   tech='Rocq/Coq conditional theorem + per-application verified replay (Coq-proved checker) + model/implementation correspondence on application traces'),
  'C04': dict(cat='other', sec='DESIGN.md §6 C04, §5 F1/F2',
    text='The full statement is FALSE of the unchanged code and that is machine-checked: C04_bw_halt_refuted_F1, C04_bw_spin_refuted_F1, '
         'C04_bw_halt_refuted_F2, C04_stmt_refuted (witnesses by vm_compute on the faithful Gallina model of reason.rs, which is tied to the '
